@@ -44,6 +44,17 @@ func init() {
 					}
 				}
 			}
+			if strings.HasPrefix(st.A, "iss:") {
+				// a session of ANOTHER deployment that shares the signing key (issuer and audience name that one):
+				// not a credential here, so the model does not know it
+				var n int
+				fmt.Sscanf(st.A[4:], "%d", &n)
+				if v2 := vfResignJWT(v, "ca_rsa", func(m map[string]any) { m["iss"] = vfForeignIssuer(n); m["aud"] = []string{vfForeignIssuer(n)} }); v2 != "" {
+					s.Cookies[authCookieName] = v2
+					w.fault("net.peer")
+				}
+				return
+			}
 			s.Cookies[authCookieName] = v
 			w.model.lineages++
 			w.model.cookies[v] = &vfCookieInfo{Subject: st.User, Proven: int(st.N), Carried: int(st.N), AuthAt: validFrom,
